@@ -171,9 +171,9 @@ type fieldInfo struct {
 	TagForm string // plain | underscore | dash | mixedcase (of the whole path, most "exotic" wins)
 }
 
-func (f *fieldInfo) key() string     { return strings.ToLower(strings.Join(f.Tags, ".")) }
-func (f *fieldInfo) goName() string  { return strings.Join(f.GoPath, ".") }
-func (f *fieldInfo) level() int      { return len(f.GoPath) }
+func (f *fieldInfo) key() string      { return strings.ToLower(strings.Join(f.Tags, ".")) }
+func (f *fieldInfo) goName() string   { return strings.Join(f.GoPath, ".") }
+func (f *fieldInfo) level() int       { return len(f.GoPath) }
 func (f *fieldInfo) pathTags() string { return strings.Join(f.Tags, "_") }
 
 type structSpec struct {
